@@ -215,3 +215,10 @@ func minInt(a, b int) int {
 	}
 	return b
 }
+
+func maxInt(a, b int) int {
+	if a > b {
+		return a
+	}
+	return b
+}
